@@ -30,6 +30,23 @@ Theorem C03_height_never_decreases :
 Proof. exact height_monotone. Qed.
 Print Assumptions C03_height_never_decreases.
 
+(** Open finding (findings/C03-foreign-hash-field-accepted.json): without the hypothesis "a
+    validated operation's hash field is its header hash" -- which [validate_operation] does not
+    enforce -- the height statement fails: concrete witness, everything else in [wf_history] holds. *)
+Theorem C03_foreign_hash_field_refuted :
+  pairs_ok (foreign_hash_witness ++ [foreign_hash_last]) = true /\
+  height (run foreign_hash_witness) 1 1 = Some 2 /\
+  height (run (foreign_hash_witness ++ [foreign_hash_last])) 1 1 = None.
+Proof. exact foreign_hash_field_refuted. Qed.
+Print Assumptions C03_foreign_hash_field_refuted.
+
+Theorem C03_height_outside_known :
+  forall (ds : list op) (o : op) (a l : N),
+    pairs_ok (ds ++ [o]) = true -> ids_ok (ds ++ [o]) = true ->
+    opt_le (height (run ds) a l) (height (run (ds ++ [o])) a l) = true.
+Proof. exact height_monotone_outside_known. Qed.
+Print Assumptions C03_height_outside_known.
+
 (** Specification of ingest: inserted exactly when validated, not yet stored, and extending the
     log (direct successor of the latest entry with the right backlink, or a prune point strictly
     above it, or the first entry at seq 0 / a prune point of an empty log). *)
